@@ -347,11 +347,9 @@ func main() {
 	// reduced alphabet for the deeper run: the letters that change a status (locks incl. the second
 	// lock on R1, marks on objects and on a lock, tombstones, revivals, epoch ticks, the split chain,
 	// the EC and the two-level family, container removal) plus the scripted prefixes
-	statusNames := []string{"Put(R1)", "Put(L1)", "Put(L4)", "Put(T1)", "Put(C2)", "Put(T2)", "Put(E0)", "Epoch+1",
-		"MarkGarbage(R1)", "MarkGarbage(L1)", "MarkGarbage(P)", "Revive(R1)", "Revive(C2)", "InhumeContainer(cA)"}
-	if r.Thorough() {
-		statusNames = append(statusNames, "Put(C1)", "Put(D0)", "MarkGarbage(E)", "MarkRedundant(R1)", "Delete(T1)", "Delete(C2)", "Revive(P)")
-	}
+	statusNames := []string{"Put(R1)", "Put(L1)", "Put(L4)", "Put(T1)", "Put(C1)", "Put(C2)", "Put(T2)", "Put(E0)", "Put(D0)", "Epoch+1",
+		"MarkGarbage(R1)", "MarkGarbage(L1)", "MarkGarbage(P)", "MarkGarbage(E)", "MarkRedundant(R1)",
+		"Delete(T1)", "Delete(C2)", "Revive(R1)", "Revive(C2)", "Revive(P)", "InhumeContainer(cA)"}
 	status := append(mw.OpsByName(statusNames...), mw.MacroOps()...)
 	fullDepth, statusDepth := 2, 3
 	if r.Thorough() {
